@@ -23,7 +23,7 @@ from props import c01, c14
 
 PROP = "C20"
 FLAVOURS = ["opt"]
-RULE = ("cases: seeded surfaces in phreeqc.dat (thorough also wateq4f.dat): Hfo_w (+ Hfo_s) sites 1e-5..5e-3 mol, area 50-800 m2/g, mass 0.05-5 g, waters of pH 3-11 and I 1e-4..1 "
+RULE = ("cases: seeded surfaces in phreeqc.dat and (one in four) wateq4f.dat with the redox sorbates As, Se, U at pe -3..13: Hfo_w (+ Hfo_s) sites 1e-5..5e-3 mol, area 50-800 m2/g, mass 0.05-5 g, waters of pH 3-11 and I 1e-4..1 "
         "with 0-4 sorbing ions (Ca Mg Sr Ba Zn Cd Pb Cu Mn S(6) P F), 9 electrostatic options, explicit composition or -equilibrate, optional REACTION. "
         "distinct & non-trivial = distinct (electrostatic option, site-type count, species whose mass action was evaluated)")
 ASSUME = ["physical constants are the manual's / engine's (F = 96493.5, R = 8.3147, eps0 = 8.854e-12)", "surface-species activities follow the mole-fraction convention the manual defines; "
@@ -39,7 +39,7 @@ MODELS = ["ddl", "ddl", "no_edl", "ccm", "donnan", "donnan_debye", "diffuse_laye
 def gen_cases(ctx):
     n = ctx.params.get("cases") or (200 if ctx.tier == "quick" else 5000)
     for i in range(n):
-        yield dict(id="s%05d" % i, i=i, db="phreeqc.dat" if (ctx.tier == "quick" or i % 4) else "wateq4f.dat")
+        yield dict(id="s%05d" % i, i=i, db="phreeqc.dat" if i % 4 else "wateq4f.dat")
 
 
 def build(ctx, case, db):
@@ -49,8 +49,14 @@ def build(ctx, case, db):
     ionic = gens.loguni(r, 1e-4, 1.0)
     ph = round(r.uniform(3, 11), 2)
     temp = 25 if r.random() < 0.6 else round(r.uniform(5, 60), 1)
-    sorb = r.sample(["Ca", "Mg", "Sr", "Ba", "Zn", "Cd", "Pb", "Cu", "Mn", "S(6)", "P", "F"], r.randint(0, 4))
-    sol = "SOLUTION 1\n temp %s\n pH %s\n units mol/kgw\n Na %s\n Cl %s charge\n" % (f(temp), f(ph), f(ionic), f(ionic))
+    pool = ["Ca", "Mg", "Sr", "Ba", "Zn", "Cd", "Pb", "Cu", "Mn", "S(6)", "P", "F"]
+    redox = case["db"] == "wateq4f.dat"
+    if redox:
+        # sorbates with several valence states (their surface species are written for one state; the model may carry the element in another, so the
+        # rewritten reaction contains electrons): the redox potential decides which state dominates
+        pool += ["As", "Se", "U", "As", "Se"]
+    sorb = sorted(set(r.sample(pool, r.randint(0, 4))), key=pool.index)
+    sol = "SOLUTION 1\n temp %s\n pH %s\n%s units mol/kgw\n Na %s\n Cl %s charge\n" % (f(temp), f(ph), (" pe %s\n" % f(round(r.uniform(-3, 13), 1))) if redox else "", f(ionic), f(ionic))
     for e in sorb:
         sol += " %s %s\n" % (e, f(gens.loguni(r, 1e-7, 1e-3)))
     w = gens.loguni(r, 1e-5, 5e-3)
